@@ -24,6 +24,8 @@ h_use(void)
 	IN(size_t, len);
 	__CPROVER_assume(len <= CTR_MAXLEN);
 	CTR_MK_BUFS(in, out, len);
+	g_ctr_in = in;
+	g_ctr_out = out;
 	IN(size_t, nbytes);
 	IN(size_t, bytemod);
 	const uint8_t * inp = in;
